@@ -59,6 +59,11 @@ def hash_int(s):
     return int(hashlib.sha1(s.encode()).hexdigest()[:8], 16)
 
 
+def file_mtime(sc, kind, idx, name):
+    """Every file a reader or borrower serves has a time stamp of its own (scenario key 'mtimes' overrides it)."""
+    return sc.get('mtimes', {}).get(name, 1000 + (hash_int('%s/%s/%s' % (kind, idx, name)) % 5000))
+
+
 class Outcome(object):
     def __init__(self):
         self.result = None
@@ -119,7 +124,7 @@ def run(sc, budget=None):
                 out.injected[(self.kind, self.idx, name)] = exc
                 raise exc
             info = MibInfo(path='%s%d://%s' % (self.kind, self.idx, name), file=name + '.txt', name=name,
-                           mtime=sc.get('mtimes', {}).get(name, 1000))
+                           mtime=file_mtime(sc, self.kind, self.idx, name))
             if self.kind == 'borrow':
                 text = 'BORROWED<%s>#%d' % (name, self.idx)
                 out.borrow_text[(self.idx, name)] = text
